@@ -16,8 +16,8 @@ ActsParams == {"construct", "construct_bad", "assign", "delete"}
 ActsMeta == {"construct", "meta", "metaassign"}
 ActsCopy == {"construct", "assign", "meta", "copy", "copywith"}
 ActsAll == {"construct", "construct_bad", "assign", "delete", "meta", "metaassign", "copy", "copywith"}
-ActsCopyOnly == {"construct", "construct_first_only", "copy"}
-ActsEq == {"construct", "assign", "meta_small", "copy", "copywith"}
+ActsCopyOnly == {"construct", "construct_first_only", "copy", "copywithdict"}
+ActsEq == {"construct", "assign", "meta_small", "copy", "copywith", "copywithdict"}
 ClsEq == {"CirclePix", "PolygonPix", "LinePix", "CircleSky", "RectanglePix"}
 ClsEqSmall == {"CirclePix", "PolygonPix", "CircleSky"}
 ClsSiblings == {"RectanglePix", "EllipseAnnulusSky"}
